@@ -106,7 +106,7 @@ def generate(ctx):
     # identifier-coincident types interleaved (both directions); comparison ignore-list active while writing
     for i in range(ctx.scale(12, 240)):
         yield {"k": "impl", "co": 1, "s": subseed("c02", ctx.seed, "implco", ctx.shard, i)}
-        yield {"k": "ref", "co": 1, "variant": ["minimal", "nonminimal", "extra-reserved-1", "no-version"][i % 4], "s": subseed("c02", ctx.seed, "refco", ctx.shard, i)}
+        yield {"k": "ref", "co": 1, "variant": ["minimal", "nonminimal", "extra-reserved-1", "no-version", "bare-identifier", "bare+no-version"][i % 6], "s": subseed("c02", ctx.seed, "refco", ctx.shard, i)}
         yield {"k": "impl", "ignore": [["_generated"], ["<all>"]][i % 2], "s": subseed("c02", ctx.seed, "implcfg", ctx.shard, i)}
     # a conforming stream that announces each of MANY record types once and uses early types again much later
     if ctx.shard == 0:
@@ -390,18 +390,19 @@ def run_literal(ctx, case):
 
 
 def same_name_types(observations):
-    seen = {}
+    """True if ONE top-level record (one frame) holds two different types of one name.  Across frames an old-style stream
+    simply defines the name again before the next record that needs the other type (the reference encoder does that)."""
 
-    def walk(o):
+    def walk(o, seen):
         if isinstance(o, list):
             if o and o[0] == "rec" and len(o) == 4:
                 key = tuple(tuple(f) for f in o[2])
                 if seen.setdefault(o[1], key) != key:
                     return True
-            return any(walk(x) for x in o)
+            return any(walk(x, seen) for x in o)
         return False
 
-    return walk(observations)
+    return any(walk(o, {}) for o in observations)
 
 
 def execute(ctx, case):
@@ -508,8 +509,8 @@ def execute(ctx, case):
         return
     opts = {kk: vv for kk, vv in variant.items() if kk not in ("name", "concat")}
     if opts.get("bare_identifier") and same_name_types(written):
-        # old-style streams identify a type by its bare name: two types of one name cannot live in such a stream;
-        # encode this sequence with full identifiers instead
+        # old-style streams identify a type by its bare name: two types of one name cannot be nested in ONE frame of such a
+        # stream; encode this sequence with full identifiers instead
         ctx.event("ref_bare_identifier_not_applicable_(same_name_types)_fell_back_to_full_identifiers")
         opts = {kk: vv for kk, vv in opts.items() if kk != "bare_identifier"}
     rng = random.Random(case["s"] ^ 0x5EED)
